@@ -12,7 +12,7 @@
    at most the recorded amount cannot fail for lack of funds); the same inequality is also evaluated on the
    implementation's snapshots by Monitors.mon_C05 on every run. Statements only. *)
 From MD.Model Require Import Base Ownable Epoch PoolMath Types PoolManager FarmManager Chain.
-From MD.Proofs Require Import BankProofs ChainProofs AtomicProofs WeightProofs FarmProofs RewardProofs FarmCustody FarmCustodyChain NonVacuity.
+From MD.Proofs Require Import BankProofs ChainProofs AtomicProofs WeightProofs FarmProofs RewardProofs FarmCustody FarmCustodyChain NonVacuity TxFarm.
 
 (* the invariant, for every reachable world *)
 Theorem C05_custody_in_every_reachable_world : forall g w0 ops d,
@@ -103,6 +103,13 @@ Proof. exact claim_farm_update_bounded. Qed.
 Theorem C05_hypotheses_met_by_a_real_history : nonvacuity_statement.
 Proof. exact hypotheses_satisfiable_by_a_real_history. Qed.
 
+(* THE WHOLE TRANSACTION, every bank balance: creating a position moves exactly the attached LP from the sender to the
+   farm manager; no other balance changes *)
+Theorem C05_position_creation_transaction_moves_exactly_the_attached_lp : forall w sender funds oid dur receiver w',
+  run_tx w sender FM (WFm (FmPosCreate oid dur receiver)) funds = Ok w' ->
+  forall a d, bal (w_bank w') a d = bal (w_bank w) a d - ind (String.eqb a sender) (camt funds d) + ind (String.eqb a FM) (camt funds d).
+Proof. exact position_create_tx_balances. Qed.
+
 Print Assumptions C05_custody_in_every_reachable_world.
 Print Assumptions C05_custody_preserved_by_every_operation.
 Print Assumptions C05_every_message_is_accounted.
@@ -111,3 +118,4 @@ Print Assumptions C05_withdrawal_pays_at_most_the_recorded_amount.
 Print Assumptions C05_close_farm_refunds_exactly_the_remainder.
 Print Assumptions C05_claims_never_exceed_the_funded_amount.
 Print Assumptions C05_hypotheses_met_by_a_real_history.
+Print Assumptions C05_position_creation_transaction_moves_exactly_the_attached_lp.
